@@ -1,6 +1,7 @@
 /* C09: lookahead level, goto-set caching and debug level never change any result.
    The same symbolic input is parsed under several (lookahead, debug) settings inside one path and
-   every observable is compared with the first run.  With -DYAEP_VERIF the library re-computes the
+   every observable is compared with the first run; the level is changed after the definition (the
+   level in force while the grammar is defined varies too).  With -DYAEP_VERIF the library re-computes the
    successor set on every goto-cache hit and reports a differing set through yaep_verif_report. */
 #include "ph.h"
 
@@ -32,6 +33,7 @@ static int deq (int a, int b)
 }
 static const int las[5] = { 0, 1, 2, -3, 7 };
 static const int dbgs[5] = { 0, 1, -1, 6, 3 };
+static const int ladef[5] = { -1, 0, 0, 2, 1 };     /* level in force while the grammar is defined (-1: the default) */
 void harness (void)
 {
   struct pconf c; struct pres r; int i, k, e, sel, nrun = (int) sx_param ("nrun", 5);
@@ -41,7 +43,7 @@ void harness (void)
   d_reset ();
   for (i = 0; i < nrun; i++)
     {
-      p_use_raw_la = 1; p_raw_la = las[i % 5]; p_dbg = dbgs[i % 5];
+      p_use_raw_la = 1; p_raw_la = las[i % 5]; p_dbg = dbgs[i % 5]; p_la_def = ladef[i % 5];
       p_run (&c, 1, &r);
       sn[i].rc = r.rc; sn[i].amb = r.amb != 0; sn[i].nerr = p_nerr; sn[i].root = r.root;
       for (e = 0; e < p_nerr && e < P_MAXERR; e++) { sn[i].err[e] = p_err[e]; sn[i].ign[e] = p_ign[e]; sn[i].rec[e] = p_rec[e]; sn[i].ea[e] = p_err_attr[e]; sn[i].ia[e] = p_ign_attr[e]; sn[i].ra[e] = p_rec_attr[e]; }
